@@ -180,7 +180,7 @@ theorem framePre_ind (P : Frame → Prop) (d : Dev) (devName : String) (leds : L
       P (match alookup name (nameToIndex leds) with | some i => setAt f i off | none => f))
     (hpa : ∀ f a c, P f → P (paintAction true d.cfg (indexMap leds) f a c)) :
     P (framePre true d devName leds) := by
-  unfold framePre
+  unfold framePre frameStrip
   simp only [if_true]
   have hs : P ((stripLeds devName).foldl (fun f name =>
       match alookup name (nameToIndex leds) with | some i => setAt f i off | none => f)
@@ -194,10 +194,12 @@ theorem framePre_ind (P : Frame → Prop) (d : Dev) (devName : String) (leds : L
         intro f0 hL h
         exact ih _ (fun x hx => hL x (List.mem_cons_of_mem _ hx)) (hstrip f0 a (hL a List.mem_cons_self) h)
     exact gen _ _ (fun x hx => hx) h0
-  have pa := fun {f : Frame} (h : P f) (a : Action) (c : RGB) => hpa f a c h
-  have ite := fun {f g : Frame} (c : Prop) [Decidable c] (h1 : P f) (h2 : P g) =>
-    (show P (if c then f else g) by split <;> assumption)
-  repeat (first | apply pa | apply ite | exact hs)
+  generalize actionPaints d = ps
+  generalize (List.foldl (fun f name => match alookup name (nameToIndex leds) with | some i => setAt f i off | none => f)
+      (Outcome.ok (List.replicate leds.length d.cfg.colors.unavailable)) (stripLeds devName)) = f0 at hs ⊢
+  induction ps generalizing f0 with
+  | nil => exact hs
+  | cons p r ih => exact ih _ (hpa f0 p.1 p.2 hs)
 
 theorem framePre_isOk (d : Dev) (devName : String) (leds : List String) :
     IsOk leds.length (framePre true d devName leds) := by
